@@ -31,6 +31,7 @@ func alpha() qcheck.Alpha {
 		Deq: []qcheck.DeqSpec{{Route: "/r1", Batch: 1, TTL: ttl}, {Batch: 2, TTL: ttl}, {Route: "/r1", Target: "t2", Batch: 3, TTL: ttl}, {Batch: 3, TTL: ttl}, {Batch: 100, TTL: ttl}, {Route: "/r2", Batch: 101, TTL: ttl}},
 		LeaseOps: []string{"nack", "nackd", "ext"}, MaxHandles: 2,
 		Operator: []string{"requeue", "cancel"},
+		Reopen:   true,
 		Ticks:    []time.Duration{1, 10*ms - 1, 10 * ms, sec - 1, ttl - 1, ttl, 5*sec - 1, 5 * sec},
 	}
 }
